@@ -424,6 +424,9 @@ def run(prog, ctx):
     ctx.check(not problems, "C07.D6", R.key_of(gp, "one-leaf-per-point"), gp.loc(),
               "each point is handed to the first child containing it and removed from the candidates of the others",
               "assignment of evaluation points to leaves: " + "; ".join(problems))
+    # ------------------------------------------------------------------ D8 (shared with C14.D8)
+    from .C14 import check_reentry_keeps_evolved_state
+    check_reentry_keeps_evolved_state(prog, ctx, "C07.D8")
 
 
 def check_coarsening_siblings(prog, ctx):
